@@ -14,6 +14,8 @@ var targetFile = map[string]string{
 	"isCallResOK":        "GenFrame",
 	"ChecksumSize":       "GenFrame",
 	"poolIndex":          "GenFrame",
+	"hcEnabled":          "GenHealthIdle",
+	"idleCheckOk":        "GenHealthIdle",
 }
 
 // varFields: constant fields of package-level composite-literal variables.
@@ -73,4 +75,10 @@ var targets = []Target{
 	// checksum.go
 	{Func: "ChecksumType.ChecksumSize", Out: "ChecksumSize", Params: "(t : Z)", Ret: "Z",
 		Hints: map[string]string{"crc32.Size": "4"}},
+	// health.go / channel.go (C19): option tests.  An error result is seen as "ok?" (nil => true).
+	{Func: "HealthCheckOptions.enabled", Out: "hcEnabled", Params: "(interval : Z)", Ret: "bool",
+		Hints: map[string]string{"hco.Interval": "interval"}},
+	{Func: "ChannelOptions.validateIdleCheck", Out: "idleCheckOk", Params: "(interval : Z) (maxIdle : Z)", Ret: "bool",
+		Hints: map[string]string{"o.IdleCheckInterval": "interval", "o.MaxIdleTime": "maxIdle",
+			"errMaxIdleTimeNotSet": "false", "nil": "true"}},
 }
